@@ -76,6 +76,10 @@ type DepthSample struct {
 	// TailSum is the sum of TailIterations over all live frames: whichever frame a loop
 	// is resumed in, its turns are counted somewhere on the stack.
 	TailSum int64
+	// FID is the function id of the frame that called (verif:depth): which function VALUE
+	// the sampled activation belongs to (every evaluation of a lambda expression makes a
+	// function with an id of its own).
+	FID string
 }
 
 type dormantDebugger struct{}
@@ -250,6 +254,7 @@ func (r *R) addProbes(env *lisp.LEnv) {
 			if len(fr) >= 2 {
 				ds.TailIter = fr[len(fr)-2].TailIterations
 				ds.Logical = fr[len(fr)-2].HeightLogical
+				ds.FID = fr[len(fr)-2].FID
 			}
 			for i := range fr {
 				ds.TailSum += int64(fr[i].TailIterations)
